@@ -1,6 +1,7 @@
 package main
 
 import (
+	"sync/atomic"
 	"fmt"
 	"go/token"
 	"go/types"
@@ -10,6 +11,7 @@ import (
 )
 
 type fnInfo struct {
+	seen      uint32
 	idx       map[ssa.Value]int32
 	n         int
 	name      string
@@ -162,6 +164,9 @@ func (s *State) doCall(w *Worker, t *Thread, fr *Frame, fnVal Value, args []Valu
 		fi = s.eng.info(fn)
 	}
 	if fi.intrinsic != nil {
+		if atomic.CompareAndSwapUint32(&fi.seen, 0, 1) {
+			s.eng.intrinSeen.Store(fi.name, true)
+		}
 		cc := &callCtx{s: s, w: w, t: t, fr: fr, fn: fn, args: args, site: site, dest: dest}
 		res := fi.intrinsic(cc)
 		if cc.block {
@@ -177,6 +182,9 @@ func (s *State) doCall(w *Worker, t *Thread, fr *Frame, fnVal Value, args []Valu
 	}
 	if len(t.frames) > maxDepth {
 		s.abort("UNWIND", "call depth exceeds %d", maxDepth)
+	}
+	if atomic.CompareAndSwapUint32(&fi.seen, 0, 1) {
+		s.eng.funcsSeen.Store(fi.name, true)
 	}
 	nf := s.newFrame(fn, args, env, dest)
 	nf.callSite = site
